@@ -326,6 +326,24 @@ for name in (['line2', 'ring3'] if a.tier == 'quick' else ['line2', 'line3', 'ri
             wit.append({'key': key, 'problems': prob[:5]})
     except Exception as e:
         wit.append({'key': key, 'problems': [f'auto-design did not complete: {type(e).__name__}: {e}'[:300]]})
+    # a single-band ROADM whose line starts with a splice (no booster is added) towards a C+L ROADM: the line follows the ROADM it
+    # leaves, its preamplifier is a single-band one
+    if name == 'line2':
+        cases += 1
+        key = 'single-band ROADM - fused - 80 km - C+L ROADM (two SI sections)'
+        try:
+            eq = equipment('eqpt_config_multiband.json')
+            eq['SI']['lband'].f_min, eq['SI']['lband'].f_max = 186.6e12, 190.0e12
+            els = [_trx('trx A'), _trx('trx B'), _roadm('roadm A', design_bands=[CL[0]]), _roadm('roadm B', design_bands=CL),
+                   _fused('patch A', 0.5), _fiber('AB', 80), _fiber('BA', 80)]
+            cons = [('trx A', 'roadm A'), ('roadm A', 'patch A'), ('patch A', 'AB'), ('AB', 'roadm B'), ('roadm B', 'trx B'),
+                    ('trx B', 'roadm B'), ('roadm B', 'BA'), ('BA', 'roadm A'), ('roadm A', 'trx A')]
+            net, eq = design({'elements': els, 'connections': [{'from_node': x, 'to_node': y} for x, y in cons]}, eq)
+            pre = next(n for n in net.nodes() if n.uid.startswith('Edfa_preamp_roadm B'))
+            if not isinstance(pre, Edfa) or pre.params.type_variety not in eq['Edfa'] or pre.effective_gain is None:
+                wit.append({'key': key, 'problems': [f'preamplifier of the single-band line: {type(pre).__name__} {getattr(pre.params, "type_variety", None)}']})
+        except Exception as e:
+            wit.append({'key': key, 'problems': [f'auto-design did not complete: {type(e).__name__}: {e}'[:300]]})
     # the same ROADMs with an operator-placed single-band in-line amplifier on every line: those lines stay single-band lines
     cases += 1
     key = f'{name}:[40, 60]:multiband ROADMs, single-band in-line amplifier given'
